@@ -5,7 +5,7 @@ Import ListNotations.
 
 (** * Storage frame (thread level) *)
 Definition writes_pc (p : pc) (j : kind) : Prop :=
-  p = PSave j \/ p = PRoll j \/ (p = PAStore /\ j = KMeta).
+  p = PSave j \/ p = PRoll j \/ (p = PAStore /\ j = KMeta) \/ p = PQSv j \/ (p = PQRb /\ j = KMeta).
 
 Lemma tstep_sto_effect t th s f b th' s' e :
   tstep t th s f b = Some (th', s', e) ->
@@ -16,5 +16,5 @@ Proof.
   intros H. destruct th as [c p ? ? ? ? ? ? ? ? ?]. destruct p.
   all: tstep_full H. all: inv_some H. all: try (left; reflexivity).
   all: right; eexists; eexists; split; [reflexivity|]; simpl; auto.
-  all: try (right; right; eexists; split; [reflexivity|]; unfold writes_pc; auto; fail).
+  all: try (right; right; eexists; split; [reflexivity|]; unfold writes_pc; auto 10; fail).
 Qed.
